@@ -60,7 +60,7 @@ type rateLimitConfig struct {
 	BackoffPeriod timeutil.Duration `yaml:"backoff_period"`
 
 	// RefuseANY, if true, makes the server refuse DNS * queries.
-	RefuseANY bool `yaml:"refuse_any"`
+	RefuseANY bool `yaml:"refuseany"`
 }
 
 // rateLimitOptions allows define maximum number of requests for IPv4 or IPv6
